@@ -35,11 +35,11 @@ ImplOK == AtEnd /\ O.status = "ok"
 (* the clauses about the returned tables speak when a result is due at all and every *)
 (* returned row belongs to a fit that succeeded; otherwise ImplRefuses /              *)
 (* ImplFailedFitReported have already failed and the tables mean nothing              *)
-MustRefuse(x) == ~Ascending(x) \/ x.nvd < 5
+MustRefuse(x) == ~Ascending(x) \/ x.nvd < 4
 ImplTables == ImplOK /\ ~MustRefuse(X) /\ ReqFailedFitReported(X, O)
 
 ImplExact == (AtEnd /\ (O.status = "ok" => ImplTables)) => ev.exact
-ImplRefuses == AtEnd => ReqRefuses(X, O) /\ ReqRefusesPolyfit(X, O)
+ImplRefuses == AtEnd => ReqRefuses(X, O)
 ImplCompletes == AtEnd => ReqCompletes(X, O)
 ImplFailedFitReported == AtEnd => ReqFailedFitReported(X, O)
 (* every fit starts from values derived from its own row, not from another temperature *)
